@@ -28,7 +28,9 @@ ASSUMPTIONS = [
     "'flushed and closed' = immediately after the call returns the file ends with a newline, every line parses, and no descriptor in /proc/self/fd points at it",
 ]
 
-INJECT = ["none", "none", "raise_value", "raise_runtime", "raise_keyboard", "raise_abort", "unknown_param", "probe_no_key"]
+INJECT = ["none", "none", "raise_value", "raise_runtime", "raise_keyboard", "raise_abort", "raise_value_empty", "raise_keyboard_empty",
+          "raise_assert_empty", "unknown_param", "probe_no_key", "nonfinite_param"]
+NONFINITE = [float("inf"), float("-inf"), float("nan")]
 DETAILS = ["hash", "repr", "context", "all", "hash,repr"]
 
 
@@ -55,6 +57,20 @@ def materialise(case: Dict[str, Any]) -> Dict[str, Any]:
         if spots:
             at = spots[pos % len(spots)]
             c["nodes"].insert(at, {"p": "VRaiseOp", "params": {"kind": inj.split("_", 1)[1]}})
+            applied, c["fault_index"] = inj, at
+    elif inj == "nonfinite_param":
+        # a non-finite float among the traced parameters (node configuration or context); the run itself is unaffected
+        value = NONFINITE[pos % 3]
+        idxs = [i for i, n in enumerate(c["nodes"]) if n["p"] in ("FloatMultiplyOperation", "FloatAddOperation", "FloatMultiplyOperationWithDefault", "VEchoProbe", "VInPlaceScaleOp")
+                and not n.get("sweep")]
+        if idxs:
+            at = idxs[pos % len(idxs)]
+            pname = M.LIB[c["nodes"][at]["p"]]["params"][0][0]
+            if (pos // 3) % 2 == 0:
+                c["nodes"][at].setdefault("params", {})[pname] = value
+            else:
+                (c["nodes"][at].get("params") or {}).pop(pname, None)
+                c["ctx"][pname] = value
             applied, c["fault_index"] = inj, at
     elif inj == "unknown_param":
         idxs = [i for i, n in enumerate(c["nodes"]) if M.describe(n)["kind"] != "ctx" and not n.get("sweep")]
@@ -113,7 +129,7 @@ def _judge(case, c, applied, detail, mode, ref, r, col, components) -> None:
     labs = ["fault:" + feats0["fault"], "detail:" + detail, "mode:" + mode, "ok" if ref["ok"] else "fails",
             f"fault:{feats0['fault']}|detail:{detail.split(',')[0]}"]
     fail_index = None if ref["ok"] else (None if construction else completed)
-    nontriv = (fail_index is not None and fail_index >= 1) or construction or applied in ("raise_keyboard", "raise_abort") or n_nodes >= 3
+    nontriv = (fail_index is not None and fail_index >= 1) or construction or applied in ("raise_keyboard", "raise_abort", "raise_keyboard_empty") or n_nodes >= 3
     col.count({k: case.get(k) for k in ("nodes", "ctx", "data", "inject", "pos", "detail", "mode")}, labs, nontriv)
     rep = {k: case.get(k) for k in ("nodes", "ctx", "data", "inject", "pos", "detail", "mode")}
 
@@ -252,8 +268,9 @@ def valid(case: Any) -> bool:
 
 def label_requirements(tier: str) -> Dict[str, Any]:
     req: Dict[str, Any] = {"mode:file": 0.3, "mode:dir": 0.3, "ok": 0.15, "fails": 0.3}
-    for f in ("raise_value", "raise_keyboard", "raise_abort", "unknown_param", "probe_no_key", "unresolved_parameter", "type_gate", "processor_exception"):
-        req["fault:" + f] = 0.02
+    for f in ("raise_value", "raise_keyboard", "raise_abort", "raise_value_empty", "raise_keyboard_empty", "raise_assert_empty", "nonfinite_param",
+              "unknown_param", "probe_no_key", "unresolved_parameter", "type_gate", "processor_exception"):
+        req["fault:" + f] = 0.015
         for d in ("hash", "repr", "context", "all"):
             req[f"fault:{f}|detail:{d}"] = 1
     req["fault:undeclared_write"] = 3
